@@ -5,24 +5,60 @@ use_repo()
 SCRATCH = ('changed_registers',)
 
 
+SKIPPED = set()          # attributes of the register file that are not data (tables of callables, helper objects)
+
+
+def _is_reg(v):
+    return hasattr(v, 'value') and hasattr(v, 'length')
+
+
+def _plain(v):
+    return v is None or isinstance(v, (int, str, bytes))
+
+
 def _val(v):
-    if hasattr(v, 'value') and hasattr(v, 'length'):
+    if _is_reg(v):
         return v.value
     return v
 
 
-def snapshot(cpu, mem=True):
-    """Flat dict name -> int | tuple | bytes. Enumerates *every* attribute of cpu.registers
-    generically so that a newly added register is picked up automatically."""
-    r = cpu.registers
-    d = {}
+def _entries(r):
+    """(kind, attribute name, object) for every data attribute of the register file.  Anything that is neither a number, a
+    register object, a list of those, nor a dict of numbers (dispatch tables, closures, helper objects a refactoring may add)
+    is not state and is left alone - its name is kept in SKIPPED for the evidence."""
     for k, v in vars(r).items():
         if k in SCRATCH:
             continue
         if isinstance(v, dict):
-            for kk, vv in v.items():
-                d[kk.name] = vv
+            if all(_plain(x) for x in v.values()):
+                yield 'dict', k, v
+            else:
+                SKIPPED.add(k)
         elif isinstance(v, list):
+            if all(_plain(x) or _is_reg(x) for x in v):
+                yield 'list', k, v
+            else:
+                SKIPPED.add(k)
+        elif _plain(v) or _is_reg(v):
+            yield 'scalar', k, v
+        else:
+            SKIPPED.add(k)
+
+
+def _dkey(k, kk):
+    return kk.name if hasattr(kk, 'name') else '%s[%r]' % (k, kk)
+
+
+def snapshot(cpu, mem=True):
+    """Flat dict name -> int | tuple | bytes. Enumerates *every* data attribute of cpu.registers
+    generically so that a newly added register is picked up automatically."""
+    r = cpu.registers
+    d = {}
+    for kind, k, v in _entries(r):
+        if kind == 'dict':
+            for kk, vv in v.items():
+                d[_dkey(k, kk)] = vv
+        elif kind == 'list':
             d[k] = tuple(_val(x) for x in v)
         else:
             d[k] = _val(v)
@@ -57,22 +93,19 @@ def mem_diff_bytes(a, b, key):
 
 def restore(cpu, snap):
     """Write an architectural snapshot into a (possibly differently aged) CPU."""
-    from armulator.armv6.registers import RName
     r = cpu.registers
-    for k, v in vars(r).items():
-        if k in SCRATCH:
-            continue
-        if isinstance(v, dict):
+    for kind, k, v in list(_entries(r)):
+        if kind == 'dict':
             for kk in v:
-                v[kk] = snap[kk.name]
-        elif isinstance(v, list):
+                v[kk] = snap[_dkey(k, kk)]
+        elif kind == 'list':
             sv = snap[k]
             for i, x in enumerate(v):
-                if hasattr(x, 'value') and hasattr(x, 'length'):
+                if _is_reg(x):
                     x.value = sv[i]
                 else:
                     v[i] = sv[i]
-        elif hasattr(v, 'value') and hasattr(v, 'length'):
+        elif _is_reg(v):
             v.value = snap[k]
         else:
             setattr(r, k, snap[k])
